@@ -154,7 +154,8 @@ func Merge[T any](remoteWrite bool, s1 []T, s2 []T) ([]T, bool) {
 		s1ItemHash := hashKey(s1Item)
 		s2Item, exist := m2[s1ItemHash]
 		writeAllowed := writeAllowed(s1Item)
-		if !writeAllowed && remoteWrite {
+		// only an item that is addressed by the update can make it fail
+		if exist && !writeAllowed && remoteWrite {
 			success = false
 		}
 		// if exists and overwriting is allowed
@@ -179,6 +180,9 @@ func Merge[T any](remoteWrite bool, s1 []T, s2 []T) ([]T, bool) {
 		if !exist && !remoteWrite {
 			// only local updates can append data
 			result = append(result, s2Item)
+		} else if !exist {
+			// a remote write can not add an item
+			success = false
 		}
 	}
 
